@@ -1,0 +1,78 @@
+//go:build verif
+
+package sqlparser
+
+// Contracts for package sqlparser (C19), checked by /verif/govc. Compiled only with -tags=verif.
+// A StaticPredicate denotes a set of numeric values:
+//   sat(sp, x)  <=>  (sp.min != nil ==> x > / >= numval(sp.min))  &&  (sp.max != nil ==> x < / <= numval(sp.max))
+// with >= / <= exactly when the INCLUSIVEMIN / INCLUSIVEMAX flag is set. AddComparison must intersect.
+
+//@ import io @/utils/io
+
+//@ ghost func hasFlag(v int, f int) bool = mod(div(v, f), 2) == 1
+// numval(v): the number held by an interface value; sameNumKind: both hold floats or both hold integers
+//@ ghost func numval(v iface) real
+//@ ghost func sameNumKind(a iface, b iface) bool
+
+//@ func @/utils/io.GenericComparison
+//@ trusted "type switches over int/int32/int64/float32/float64 via reflect-free helpers and reflect.DeepEqual for EQ: stated for two numbers of the same kind and the four order operators"
+//@ pure
+//@ ensures #nil: (left == nil || right == nil) ==> err != nil
+//@ ensures #errFalse: err != nil ==> !result
+//@ ensures #lt: (left != nil && right != nil && sameNumKind(left, right) && op == io.LT) ==> (err == nil && result == (numval(left) < numval(right)))
+//@ ensures #lte: (left != nil && right != nil && sameNumKind(left, right) && op == io.LTE) ==> (err == nil && result == (numval(left) <= numval(right)))
+//@ ensures #gt: (left != nil && right != nil && sameNumKind(left, right) && op == io.GT) ==> (err == nil && result == (numval(left) > numval(right)))
+//@ ensures #gte: (left != nil && right != nil && sameNumKind(left, right) && op == io.GTE) ==> (err == nil && result == (numval(left) >= numval(right)))
+
+//@ func (*StaticPredicateContentsEnum).AddOption
+//@ trusted "sets one bit (*cat |= option); stated for the single-bit flag constants"
+//@ modifies none
+//@ ensures #set: hasFlag(*cat, option)
+//@ ensures #others: forallint(f, pattern(hasFlag(*cat, f)), (f != option && (f == 2 || f == 4 || f == 8 || f == 16 || f == 32 || f == 64 || f == 128)) ==> hasFlag(*cat, f) == old(hasFlag(*cat, f)))
+
+//@ func (*StaticPredicateContentsEnum).DelOption
+//@ trusted "clears one bit (*cat &= ^option); stated for the single-bit flag constants"
+//@ modifies none
+//@ ensures #cleared: !hasFlag(*cat, option)
+//@ ensures #others: forallint(f, pattern(hasFlag(*cat, f)), (f != option && (f == 2 || f == 4 || f == 8 || f == 16 || f == 32 || f == 64 || f == 128)) ==> hasFlag(*cat, f) == old(hasFlag(*cat, f)))
+
+//@ func (*StaticPredicate).SetMin
+//@ props C19
+//@ ensures #min: sp.min == newMin && sp.max == old(sp.max)
+//@ ensures #flagOn: inclusive ==> hasFlag(sp.ContentsEnum, INCLUSIVEMIN)
+//@ ensures #flagKept: !inclusive ==> hasFlag(sp.ContentsEnum, INCLUSIVEMIN) == old(hasFlag(sp.ContentsEnum, INCLUSIVEMIN))
+//@ ensures #bound: hasFlag(sp.ContentsEnum, MINBOUND)
+//@ ensures #maxFlag: hasFlag(sp.ContentsEnum, INCLUSIVEMAX) == old(hasFlag(sp.ContentsEnum, INCLUSIVEMAX))
+
+//@ func (*StaticPredicate).SetMax
+//@ props C19
+//@ ensures #max: sp.max == newMax && sp.min == old(sp.min)
+//@ ensures #flagOn: inclusive ==> hasFlag(sp.ContentsEnum, INCLUSIVEMAX)
+//@ ensures #flagKept: !inclusive ==> hasFlag(sp.ContentsEnum, INCLUSIVEMAX) == old(hasFlag(sp.ContentsEnum, INCLUSIVEMAX))
+//@ ensures #bound: hasFlag(sp.ContentsEnum, MAXBOUND)
+//@ ensures #minFlag: hasFlag(sp.ContentsEnum, INCLUSIVEMIN) == old(hasFlag(sp.ContentsEnum, INCLUSIVEMIN))
+
+// satMax(hasMax, incl, max, x): x satisfies the upper bound; satMin likewise.
+//@ ghost func satMax(has bool, incl bool, m real, x real) bool = !has || ite(incl, x <= m, x < m)
+//@ ghost func satMin(has bool, incl bool, m real, x real) bool = !has || ite(incl, x >= m, x > m)
+
+//@ func (*StaticPredicate).AddComparison
+//@ props C19
+//@ requires #value: value != nil
+//@ requires #kindMax: sp.max != nil ==> sameNumKind(value, sp.max)
+//@ requires #kindMin: sp.min != nil ==> sameNumKind(value, sp.min)
+// a strict comparison on an unbounded side must not find a stale inclusive flag (flags are only set together with a bound)
+//@ requires #noStaleMin: (sp.min == nil && op == io.GT) ==> !hasFlag(sp.ContentsEnum, INCLUSIVEMIN)
+//@ requires #noStaleMax: (sp.max == nil && op == io.LT) ==> !hasFlag(sp.ContentsEnum, INCLUSIVEMAX)
+//@ ensures #ok: (op == io.LT || op == io.LTE || op == io.GT || op == io.GTE) ==> result == nil
+//@ ensures #lt: op == io.LT ==> forallreal(x, satMax(sp.max != nil, hasFlag(sp.ContentsEnum, INCLUSIVEMAX), numval(sp.max), x) == (old(satMax(sp.max != nil, hasFlag(sp.ContentsEnum, INCLUSIVEMAX), numval(sp.max), x)) && x < numval(value)))
+//@ ensures #lte: op == io.LTE ==> forallreal(x, satMax(sp.max != nil, hasFlag(sp.ContentsEnum, INCLUSIVEMAX), numval(sp.max), x) == (old(satMax(sp.max != nil, hasFlag(sp.ContentsEnum, INCLUSIVEMAX), numval(sp.max), x)) && x <= numval(value)))
+//@ ensures #gt: op == io.GT ==> forallreal(x, satMin(sp.min != nil, hasFlag(sp.ContentsEnum, INCLUSIVEMIN), numval(sp.min), x) == (old(satMin(sp.min != nil, hasFlag(sp.ContentsEnum, INCLUSIVEMIN), numval(sp.min), x)) && x > numval(value)))
+//@ ensures #gte: op == io.GTE ==> forallreal(x, satMin(sp.min != nil, hasFlag(sp.ContentsEnum, INCLUSIVEMIN), numval(sp.min), x) == (old(satMin(sp.min != nil, hasFlag(sp.ContentsEnum, INCLUSIVEMIN), numval(sp.min), x)) && x >= numval(value)))
+//@ ensures #ltKeepsMin: (op == io.LT || op == io.LTE) ==> (sp.min == old(sp.min) && hasFlag(sp.ContentsEnum, INCLUSIVEMIN) == old(hasFlag(sp.ContentsEnum, INCLUSIVEMIN)))
+//@ ensures #gtKeepsMax: (op == io.GT || op == io.GTE) ==> (sp.max == old(sp.max) && hasFlag(sp.ContentsEnum, INCLUSIVEMAX) == old(hasFlag(sp.ContentsEnum, INCLUSIVEMAX)))
+
+//@ func (*StaticPredicate).IsFalse
+//@ props C19
+//@ requires #kind: (sp.min != nil && sp.max != nil) ==> sameNumKind(sp.min, sp.max)
+//@ ensures #sound: result ==> (sp.min != nil && sp.max != nil && numval(sp.min) > numval(sp.max))
